@@ -338,8 +338,9 @@ def check_row_sibling(ctx, fa_w, fa_a):
     lw, rw = row_loop(fa_w)
     la, ra = row_loop(fa_a)
     ctx.need(lw is not None and la is not None, 'row-rendering loops of write/append not found')
-    cw, _ = canon(cell_placeholder(lw, lw.target.id, rw.target.id), extra=('self', '__CELL__'))
-    ca, _ = canon(cell_placeholder(la, la.target.id, ra.target.id), extra=('self', '__CELL__'))
+    from ..normal import canon_block
+    cw, _ = canon(ast.Module(body=canon_block([cell_placeholder(lw, lw.target.id, rw.target.id)]), type_ignores=[]), extra=('self', '__CELL__'))
+    ca, _ = canon(ast.Module(body=canon_block([cell_placeholder(la, la.target.id, ra.target.id)]), type_ignores=[]), extra=('self', '__CELL__'))
     ctx.check('C03.ROW-SIBLING', cw == ca, fa_a.func, la,
               'row rendering in append (line %d) is isomorphic to write (line %d) modulo the data source: %s'
               % (la.lineno, lw.lineno, src(lw.body[0]).split('\n')[0][:70]),
@@ -381,6 +382,13 @@ def check_row_source(ctx, fa_w, fa_a):
 
 def check_casekey(ctx, fa):
     f = fa.func
+
+    def is_tables(e):
+        if isinstance(e, ast.Name):
+            v = fa.resolve(e)
+            if v is not None:
+                e = v
+        return any(isinstance(c, ast.Call) and call_name(c) == 'tables' for c in ast.walk(e)) or 'tables' in src(e)
     dt = fa.func.params[1] if len(fa.func.params) > 1 else 'datatable'
     # (a) pairs: keys whose upper() is a table are skipped
     ok_a = None
@@ -394,7 +402,7 @@ def check_casekey(ctx, fa):
                         if isinstance(c, ast.Compare) and len(c.ops) == 1 and isinstance(c.ops[0], ast.In) \
                                 and isinstance(c.left, ast.Call) and call_name(c.left) == 'upper' \
                                 and isinstance(c.left.func.value, ast.Name) and c.left.func.value.id == key \
-                                and 'tables' in src(c.comparators[0]):
+                                and is_tables(c.comparators[0]):
                             ok_a = st
             break
     ctx.check('C03.CASEKEY', ok_a is not None, f, ok_a or fa.node,
@@ -403,9 +411,9 @@ def check_casekey(ctx, fa):
     # (b) tables: looked up under sym.lower() or sym
     ok_b = None
     for n in walk_local(fa.node):
-        if isinstance(n, ast.For) and isinstance(n.target, ast.Name) and 'tables' in src(n.iter):
+        if isinstance(n, ast.For) and isinstance(n.target, ast.Name) and is_tables(n.iter):
             sym = n.target.id
-            tests = [c for c in walk_local(n) if isinstance(c, ast.Compare) and len(c.ops) == 1 and isinstance(c.ops[0], ast.In)
+            tests = [c for c in walk_local(n) if isinstance(c, ast.Compare) and len(c.ops) == 1 and isinstance(c.ops[0], (ast.In, ast.NotIn))
                      and isinstance(c.comparators[0], ast.Name) and c.comparators[0].id == dt]
             lows = [c for c in tests if isinstance(c.left, ast.Call) and call_name(c.left) == 'lower'
                     and isinstance(c.left.func.value, ast.Name) and c.left.func.value.id == sym]
